@@ -605,6 +605,75 @@ func TestKnown_C07_LeftoverHeartbeatLoopDeposesNextTerm(t *testing.T) {
 
 var kvSlow func(k *natsmock.MockKeyValue)
 
+// C11.expiry_demotes_unless_reconnected: after a disconnect the client gives the connection up ("closed"
+// notification). That is no reconnect, but the expiry handler only demoted while the status was exactly
+// Disconnected, so the grace period elapsed and the leader stayed.
+func TestKnown_C11_ClosedConnectionBlocksGraceDemotion(t *testing.T) {
+	cfg := kCfg()
+	cfg.HeartbeatInterval = 100 * time.Millisecond
+	cfg.DisconnectGracePeriod = 300 * time.Millisecond
+	e, _ := kElection(t, cfg)
+	kWithMonitor(e)
+	var d atomic.Int32
+	e.OnDemote(func() { d.Add(1) })
+	kLeader(t, e)
+	mon := e.connectionMonitor.(*natsConnectionMonitor)
+	mon.OnDisconnect(e.disconnectHandler.handleDisconnect)
+	mon.handleDisconnect(nil)
+	mon.handleClosed(nil)
+	time.Sleep(700 * time.Millisecond)
+	lead, dem := e.IsLeader(), d.Load()
+	e.Stop()
+	if lead || dem != 1 {
+		t.Fatalf("VIOLATION-REPRODUCED: disconnect, then closed, no reconnect: 700ms later (grace period 300ms) IsLeader=%v, OnDemote calls=%d", lead, dem)
+	}
+}
+
+// C11.status_connected_only_if_still_reconnected: a second disconnect that arrives while the reconnect
+// verification is reading is overwritten by the unconditional SetStatus(Connected) at the end of the verification;
+// its grace timer then finds "Connected" and does nothing.
+func TestKnown_C11_DisconnectDuringVerificationIsLost(t *testing.T) {
+	cfg := kCfg()
+	cfg.HeartbeatInterval = 100 * time.Millisecond
+	cfg.DisconnectGracePeriod = 300 * time.Millisecond
+	e, kv := kElection(t, cfg)
+	kWithMonitor(e)
+	var d atomic.Int32
+	e.OnDemote(func() { d.Add(1) })
+	kLeader(t, e)
+	mon := e.connectionMonitor.(*natsConnectionMonitor)
+	mon.OnDisconnect(e.disconnectHandler.handleDisconnect)
+	mon.OnReconnect(e.handleReconnect)
+	mon.handleDisconnect(nil)
+	time.Sleep(50 * time.Millisecond)
+	// the verification's reads take a moment; the connection drops again meanwhile
+	entered := make(chan struct{}, 4)
+	release := make(chan struct{})
+	kv.SetGetFunc(func(key string) (natsmock.Entry, error) {
+		select {
+		case entered <- struct{}{}:
+		default:
+		}
+		<-release
+		kv.SetGetFunc(nil)
+		return kv.Get(key)
+	})
+	mon.handleReconnect(nil)
+	select {
+	case <-entered:
+	case <-time.After(2 * time.Second):
+		t.Skip("verification read not reached")
+	}
+	mon.handleDisconnect(nil) // second disconnect: grace period runs from here
+	close(release)
+	time.Sleep(800 * time.Millisecond)
+	lead, dem := e.IsLeader(), d.Load()
+	e.Stop()
+	if lead || dem != 1 {
+		t.Fatalf("VIOLATION-REPRODUCED: second disconnect during the reconnect verification, no reconnect after it: 800ms later (grace period 300ms) IsLeader=%v, OnDemote calls=%d", lead, dem)
+	}
+}
+
 // nopanic.nil_invoke(Entry)@attemptPriorityTakeover: a store may answer (nil, nil) for an absent key (the library's
 // own NATS adapter passes a nil entry through); every other reader guards for it.
 func TestKnown_C13_TakeoverOnNilEntry(t *testing.T) {
